@@ -486,7 +486,11 @@ func FaultCounts(trace []Cmd) map[string]int64 {
 	for _, c := range trace {
 		switch {
 		case c.A == "rel" && c.Out != OutOK:
-			m["op:"+c.Out+":"+kindOf(c.Op)]++
+			out := c.Out
+			if i := strings.IndexByte(out, ':'); i >= 0 {
+				out = out[:i] // verdict without its argument (clientsim)
+			}
+			m["op:"+out+":"+kindOf(c.Op)]++
 		case c.A == "rel":
 		case strings.HasPrefix(c.A, "start"), c.A == "tick", c.A == "submit":
 		default:
